@@ -29,7 +29,7 @@ PATHS = ('max_imfs', 'sift_thresh', 'imf_opts/sd_thresh', 'envelope_opts/interp_
          'extrema_opts/mag_pad_opts/stat_length', 'extrema_opts/loc_pad_opts/reflect_type',
          'newkey', 'imf_opts/newkey', 'extrema_opts/mag_pad_opts/newkey', 'a/b/c/d',
          'extrema_opts/mag_pad_opts', 'imf_opts')
-VALUES = (3, 0.25, None, 'pchip', [1, 2], (0.1, 0.5, 0.1), 'ARRAY', 'DICT')
+VALUES = (3, 0.25, None, 'pchip', [1, 2], (0.1, 0.5, 0.1), 'ARRAY', 'DICT', 1e-24)   # 1e-24: a legitimate tiny threshold
 VALID = {('max_imfs', 3), ('sift_thresh', 0.25), ('imf_opts/sd_thresh', 0.25), ('envelope_opts/interp_method', 'pchip'),
          ('extrema_opts/mag_pad_opts/stat_length', 3)}
 SMALL_VALUES = (3, None, (0.1, 0.5, 0.1), 'DICT')
@@ -225,6 +225,10 @@ def transition(root, hist):
         cfg.to_yaml_file(fn)
     except Exception:
         pass
+    try:
+        cfg.get_func()          # a callable obtained BEFORE the edit must not pin the old options
+    except Exception:
+        pass
     mexc = model_apply(model, op)
     rexc = None
     try:
@@ -246,6 +250,16 @@ def transition(root, hist):
         if a != b:
             viols.append(('keypath:get', '%s: cfg[%r] -> %r, nested indexing -> %r' % (d, p, a, b)))
             break
+    # the callable built from the configuration binds exactly the current options
+    try:
+        f = cfg.get_func()
+        bound = {k: norm(v) for k, v in f.keywords.items()}
+        if bound != norm(model) or getattr(f.func, '__name__', None) != variant:
+            viols.append(('get_func:stale', '%s: get_func() binds %r for %s, the configuration holds %r' % (
+                d, sorted(set(map(str, bound.items())) ^ set(map(str, norm(model).items())))[:4], getattr(f.func, '__name__', None), '...')))
+    except Exception as e:
+        if not viols:
+            viols.append(('get_func:raise', '%s: get_func() raised %r' % (d, e)))
     # editing one configuration object must not leak into the defaults handed out afterwards
     try:
         again = plain(S.get_config(variant))
